@@ -45,6 +45,17 @@
      against the accessor; `senderQ`: "err" | "none" | "d:<domain>", the UserIDQuerier's answer for the sender ID): `verify` answers for the mxid_mapping signatures (caller's
      verifier), `store` = StoreSenderIDFromPublicID ok/err, `selfok` = the sender's own key validly signed the event (1/0, checked
      by the harness).
+
+   handshake.performjoin_pseudo  mj sid sj create jr authMembers stateMembers storeFail remote
+     PerformJoin for room version org.matrix.msc4014 (round 5).  mj / sid / sj: make_join, GetOrCreateSenderID, send_join ok | err;
+     create: ok | missing | badver; jr: the join rule of the presented state (public: the join passes CheckSendJoinResponse;
+     invite: it does not); authMembers / stateMembers: the m.room.member events of auth_chain / state, each
+       <sender key>/<mapping key | ->/<mapping user>/<mapping signatures ok|none|other|bad|extrabad>/<key the event is signed with>/<membership>
+     (harness: pjMember); storeFail: "-" | k (the k-th StoreSenderIDFromPublicID call fails); remote: "-" | forged.
+     outcome: <result>|<trace> — result err:<stage> | ok:join=…:oursig=…:same=…; trace: "S:<key name>=<user>" per store call, "Q"
+     when the auth checks of CheckSendJoinResponse begin.
+     specification stream: every stored pair must be VOUCHED for (`Spec.vouched`: a validly signed mapping for that very key and
+     user) — "err:must-not-store" otherwise; a returned event must be our join with a valid signature of the joiner's room key.
 -/
 import VDriver.Util
 import VDriver.Auth
@@ -200,6 +211,49 @@ def handle (op : String) (args : Array String) : Option String :=
           "ok:v3:sigs=" ++ joinNames (pre ++ o.sigs.map (·.signer)) ++ ":valid=1:unmod=1" ++ tail ++ ":depth=1:stripped=" ++ toString o.strippedLen
             ++ ":asked=" ++ asked
     some (withSpec m (Spec.performInviteGuards i))
+  | "performjoin_pseudo", [mj, sid, sj, create, jr, authM, stateM, storeFail, remote] =>
+    let parseMember (d : String) : Option PJMember :=
+      match d.splitOn "/" with
+      | [sender, mapKey, mapUser, mapSig, _evKey, _membership] =>
+        some { sender := strBytes sender,
+               mapping := if mapKey == "-" then none else some (strBytes mapKey, strBytes mapUser),
+               mappingSigned := mapSig == "ok" }
+      | _ => none
+    let members := ((FedcheckOps.splitList authM ",") ++ (FedcheckOps.splitList stateM ",")).filterMap parseMember
+    let failAt : Option Nat := if storeFail == "-" then none else some storeFail.toNat!
+    let i : PerformJoinPseudoIn := {
+      makeJoinOK := mj != "err", senderIDOK := sid != "err", buildOK := true, sendJoinOK := sj != "err",
+      create := if create == "missing" then .missing else if create == "badver" then .version b!"99" else .version pseudoVer,
+      knownVersion := fun v => (versionRow? v).isSome,
+      members := members,
+      storeOK := fun k => failAt != some (k + 1),
+      -- the presented state lets the join through exactly when the join rule is public (faulty membership events are
+      -- dropped by CheckStateResponse, not fatal)
+      checkOK := jr == "public" }
+    let (tr, res) := performJoinPseudo i
+    let showStep : PJStep → String
+      | .store k u => "S:" ++ bytesStr k ++ "=" ++ bytesStr u
+      | .check => "Q"
+    let trS := ",".intercalate (tr.map showStep)
+    -- with remote = forged the resident server's copy (a join "by" our sender ID signed with another key) is taken in this
+    -- room version: `signedJoin true _ = true`
+    let okS := if remote == "forged" then "ok:join=1:oursig=0:same=0" else "ok:join=1:oursig=1:same=1"
+    let r := match res with
+      | .ok () => okS
+      | .error .makeJoinFailed => "err:make_join"
+      | .error .senderIDFailed => "err:sender_id"
+      | .error .buildFailed => "err:build"
+      | .error .sendJoinFailed => "err:send_join"
+      | .error .noCreate => "err:no-create"
+      | .error .storeFailed => "err:store"
+      | .error .checkFailed => "err:check"
+    let m := r ++ "|" ++ trS
+    let spec :=
+      if !Spec.storesVouched members tr then "err:must-not-store"
+      else if r.startsWith "ok" && !(Spec.performJoinPseudoGuards i) then "err:must-reject"
+      else if r.startsWith "ok" && !r.startsWith "ok:join=1:oursig=1" then "err:must-not-return-this-event"
+      else m
+    some (m ++ "\t" ++ spec)
   | _, _ => none
 
 end V.Driver.HandshakeInviteOps
